@@ -99,6 +99,8 @@ func execStep(w *world.World, s Step) bool {
 		w.SMPAbort(p)
 	case "FragSize":
 		w.SetFragSize(p, s.Z)
+	case "Err":
+		w.InjectRaw(p, []byte("?OTR Error: peer could not read the message"))
 	case "Drop":
 		if len(p.Queue) == 0 {
 			return false
@@ -248,7 +250,7 @@ func genSchedule(rng *rand.Rand, family string, depth int) *Schedule {
 	default:
 		sc.Pol["A"], sc.Pol["B"] = 3, 3
 	}
-	if family == "life" {
+	if family == "life" || family == "errlife" || family == "akestart" {
 		sc.Pol["A"] |= rng.Intn(16) << 2
 		sc.Pol["B"] |= rng.Intn(16) << 2
 	}
@@ -259,44 +261,99 @@ func genSchedule(rng *rand.Rand, family string, depth int) *Schedule {
 		sc.Frag["B"] = []int{60, 100, 300, 1000}[rng.Intn(4)]
 	}
 	sc.Fam = "none"
-	if family == "data" || family == "bag" {
+	ps := []string{"A", "B"}
+	text := 0
+	add := func(s Step) { sc.Steps = append(sc.Steps, s) }
+	switch family {
+	case "pingpong":
+		sc.Setup, sc.Fam = "ake", "fifo-data"
+		for d := 0; d < depth; d++ {
+			text++
+			add(Step{A: "Send", P: "A", T: text})
+			add(Step{A: "Deliver", P: "B"})
+			add(Step{A: "Deliver", P: "A"})
+			text++
+			add(Step{A: "Send", P: "B", T: text})
+			add(Step{A: "Deliver", P: "A"})
+			add(Step{A: "Deliver", P: "B"})
+		}
+		return sc
+	case "oneway":
+		sc.Setup, sc.Fam = "ake", "fifo-data"
+		for d := 0; d < depth; d++ {
+			text++
+			add(Step{A: "Send", P: "A", T: text})
+			add(Step{A: "Deliver", P: "B"})
+			if rng.Intn(4) == 0 {
+				add(Step{A: "Tick", P: "B"})
+			}
+			add(Step{A: "Deliver", P: "A"})
+		}
+		return sc
+	case "akestart":
+		sc.Fam = "ake"
+		// a start pattern, then random deliveries; everything is drained at the end
+		for k := 0; k < 1+rng.Intn(2); k++ {
+			p := ps[rng.Intn(2)]
+			switch rng.Intn(4) {
+			case 0, 1:
+				add(Step{A: "Query", P: p})
+			case 2:
+				text++
+				add(Step{A: "Send", P: p, T: text})
+			default:
+				add(Step{A: "Err", P: p})
+			}
+		}
+		for d := 0; d < depth; d++ {
+			add(Step{A: "Deliver", P: ps[rng.Intn(2)]})
+		}
+		return sc
+	}
+	if family == "data" || family == "bag" || family == "bagsess" {
 		sc.Setup = "ake"
 		if family == "data" {
 			sc.Fam = "fifo-data"
 		}
 	}
-	text := 0
-	ps := []string{"A", "B"}
 	for d := 0; d < depth; d++ {
 		p := ps[rng.Intn(2)]
 		r := rng.Intn(100)
 		switch {
 		case r < 35:
 			text++
-			sc.Steps = append(sc.Steps, Step{A: "Send", P: p, T: text})
+			add(Step{A: "Send", P: p, T: text})
 		case r < 80:
-			if family == "bag" && rng.Intn(3) == 0 {
+			if (family == "bag" || family == "bagsess") && rng.Intn(3) == 0 {
 				switch rng.Intn(3) {
 				case 0:
-					sc.Steps = append(sc.Steps, Step{A: "Dup", P: p})
+					add(Step{A: "Dup", P: p})
 				case 1:
-					sc.Steps = append(sc.Steps, Step{A: "DeliverAt", P: p, I: rng.Intn(3)})
+					add(Step{A: "DeliverAt", P: p, I: rng.Intn(3)})
 				default:
-					sc.Steps = append(sc.Steps, Step{A: "ReplayAny", P: p, I: rng.Intn(1000)})
+					add(Step{A: "ReplayAny", P: p, I: rng.Intn(1000)})
 				}
 			} else {
-				sc.Steps = append(sc.Steps, Step{A: "Deliver", P: p})
+				add(Step{A: "Deliver", P: p})
 			}
 		case r < 85:
-			sc.Steps = append(sc.Steps, Step{A: "Tick", P: p})
-		case r < 88 && family != "life":
-			sc.Steps = append(sc.Steps, Step{A: "ExtraKey", P: p})
-		case r < 92 && family == "life":
-			sc.Steps = append(sc.Steps, Step{A: "Query", P: p})
-		case r < 96 && family == "life":
-			sc.Steps = append(sc.Steps, Step{A: "End", P: p})
+			add(Step{A: "Tick", P: p})
+		case r < 88 && family != "life" && family != "errlife":
+			add(Step{A: "ExtraKey", P: p})
+		case r < 92 && (family == "life" || family == "errlife"):
+			add(Step{A: "Query", P: p})
+		case r < 95 && (family == "life" || family == "errlife"):
+			add(Step{A: "End", P: p})
+		case r < 97 && family == "errlife":
+			add(Step{A: "Err", P: p})
+		case r < 91 && family == "bagsess":
+			add(Step{A: "End", P: p})
+		case r < 94 && family == "bagsess":
+			add(Step{A: "Tick", P: "A"})
+			add(Step{A: "Tick", P: "B"})
+			add(Step{A: "Query", P: p})
 		default:
-			sc.Steps = append(sc.Steps, Step{A: "Deliver", P: p})
+			add(Step{A: "Deliver", P: p})
 		}
 	}
 	return sc
